@@ -136,6 +136,12 @@ static void CloseTarget(void) {
         if (fseek(TargFile, AHeader, SEEK_SET) == -1) {
             ChkIO(TargName);
         }
+        /* an empty image has no last byte to hold a checksum */
+
+        if (FileSize(TargFile) <= AHeader) {
+            fclose(TargFile);
+            return;
+        }
         Size = Rest = FileSize(TargFile) - AHeader - 1;
 
         Sum = 0;
